@@ -1091,27 +1091,20 @@ class BluetoothLEAdvertisement:
         _uuid_convert = _cached_uuid_converter
 
         if raw_manufacturer_data := data.manufacturer_data:
-            if raw_manufacturer_data[0].data:
-                manufacturer_data = {
-                    int(v.uuid, 16): v.data for v in raw_manufacturer_data
-                }
-            else:
-                # Legacy data
-                manufacturer_data = {
-                    int(v.uuid, 16): bytes(v.legacy_data) for v in raw_manufacturer_data
-                }
+            # Decide per element: an element with an empty payload (company
+            # id only) must not make the whole list read as legacy data
+            manufacturer_data = {
+                int(v.uuid, 16): v.data or bytes(v.legacy_data)
+                for v in raw_manufacturer_data
+            }
         else:
             manufacturer_data = {}
 
         if raw_service_data := data.service_data:
-            if raw_service_data[0].data:
-                service_data = {_uuid_convert(v.uuid): v.data for v in raw_service_data}
-            else:
-                # Legacy data
-                service_data = {
-                    _uuid_convert(v.uuid): bytes(v.legacy_data)
-                    for v in raw_service_data
-                }
+            service_data = {
+                _uuid_convert(v.uuid): v.data or bytes(v.legacy_data)
+                for v in raw_service_data
+            }
         else:
             service_data = {}
 
